@@ -4,13 +4,18 @@ from harness import core
 from props import time_common as tc
 
 BASE = dict(MaxLen=3, MaxT=4, Lo=1, Small=set(), MaxLenS=2, MaxTS=3, Ds={0, 1, 2}, AbsLo=1, Terms={"C", "E", "U"}, AuxLen=2,
-            SpecKs={"N", "C", "E", "U", "X"}, SpecTs={0, 1, 2}, Hz=7, DispOps=set(), DispLen=1)
+            SpecKs={"N", "C", "E", "U", "X"}, SpecTs={0, 1, 2}, Hz=7, DispOps=set(), DispLen=1, EchoOps=set(), EchoKs=set())
 
-QUICK = [(["debounce", "throttle_first", "sample"], dict(DispOps={"debounce"})),
+# EchoOps / EchoKs: feedback - the sink, on its k-th element, pushes one more element into the (hot) source from inside on_next
+QUICK = [(["debounce", "throttle_first", "sample"], dict(DispOps={"debounce"}, EchoOps={"sample", "debounce"}, EchoKs={1})),
          (["throttle_with_mapper", "sample_obs"],
-          dict(MaxLen=2, MaxT=3, SpecTs={0, 2}, Terms={"C", "E"}, Small={"sample_obs"}, MaxLenS=2, MaxTS=2, AuxLen=2, Hz=5))]
+          dict(MaxLen=2, MaxT=3, SpecTs={0, 2}, Terms={"C", "E"}, Small={"sample_obs"}, MaxLenS=2, MaxTS=2, AuxLen=2, Hz=5,
+               EchoOps={"sample_obs", "throttle_with_mapper"}, EchoKs={1}))]
 
 THOROUGH = [(["debounce", "throttle_first", "sample"], dict(MaxLen=4, MaxT=6, Ds={0, 1, 2, 3}, Hz=10)),
+            (["debounce", "sample", "sample_obs", "throttle_with_mapper"],
+             dict(MaxLen=3, MaxT=4, AuxLen=2, SpecTs={0, 2}, Small={"sample_obs", "throttle_with_mapper"}, MaxLenS=2, MaxTS=3, Hz=7,
+                  EchoOps={"debounce", "sample", "sample_obs", "throttle_with_mapper"}, EchoKs={1, 2})),
             (["throttle_with_mapper"], dict(MaxLen=3, MaxT=3, SpecTs={0, 2}, Hz=6)),
             (["sample_obs"], dict(MaxLen=3, MaxT=3, AuxLen=2, Hz=5)),
             (["debounce", "throttle_first", "sample", "throttle_with_mapper", "sample_obs"],
